@@ -490,6 +490,8 @@ class _Frame:
                 obj.attrs[self.mangle(obj, t.attr)] = v
             elif isinstance(obj, Closure):
                 pass  # f.__name__ = ..., f.__doc__ = ...: metadata of a generated function
+            elif getattr(type(obj), "_xeval_open", False):
+                setattr(obj, t.attr, v)
             else:
                 raise self.bad("attribute store on a non-object", t)
         else:
@@ -1174,6 +1176,15 @@ def _np_concatenate(seq, axis=0):
 
 def _np_repeat(a, repeats, axis=None):
     a = XArray.from_nested(a)
+    if isinstance(repeats, (XArray, list, tuple)):
+        # one repeat count per entry (flattened input)
+        reps = [int(x) for x in XArray.from_nested(repeats).data]
+        if axis is not None or len(reps) != a.size:
+            raise XArrayError("np.repeat with per-entry counts on this shape is not modelled")
+        out = []
+        for x, k in zip(a.data, reps):
+            out.extend([x] * k)
+        return XArray((len(out),), out)
     repeats = int(repeats)
     if axis is None:
         out = []
@@ -1378,7 +1389,30 @@ _NP_FUNCS = {
     "isscalar": lambda x: _is_num(x) or isinstance(x, (bool, str)),
     "where": lambda *a: _np_where(*a),
     "setdiff1d": lambda *a, **k: _np_setdiff1d(*a, **k),
+    "diff": lambda a, **k: (lambda v: XArray((max(len(v) - 1, 0),), [v[i + 1] - v[i] for i in range(len(v) - 1)]))(list(XArray.from_nested(a).data)),
+    "bincount": lambda x, weights=None, minlength=0: _np_bincount(x, weights, minlength),
+    "iscomplexobj": lambda a: False,
+    "int64": lambda x=0: x,
+    "int32": lambda x=0: x,
 }
+
+
+def _np_bincount(x, weights=None, minlength=0):
+    x = XArray.from_nested(x)
+    idx = []
+    for v in x.data:
+        if isinstance(v, bool) or not isinstance(v, (int, Fraction)) or Fraction(v).denominator != 1 or v < 0:
+            raise XArrayError("np.bincount needs concrete non-negative integers")
+        idx.append(int(v))
+    n = max(int(minlength), (max(idx) + 1) if idx else 0)
+    w = list(XArray.from_nested(weights).data) if weights is not None else [1] * len(idx)
+    if len(w) != len(idx):
+        raise XArrayError("np.bincount: weights and x differ in length")
+    out = [0] * n
+    for i, v in zip(idx, w):
+        out[i] = out[i] + v
+    return XArray((n,), out)
+
 
 
 def _ints(a, what):
